@@ -151,7 +151,7 @@ func helloTerm(h *srvHello) string {
 
 // flightTerm: the Model/Negotiate.v flight of this connection, read from the server's plaintext messages;
 // the EncryptedExtensions ALPN (encrypted in TLS 1.3) is the protocol the server reports.
-func flightTerm(res *result, ss tls.ConnectionState) (string, bool) {
+func flightTerm(res *result, ss tls.ConnectionState, brotliCert bool) (string, bool) {
 	var hrr, sh *srvHello
 	skx := "None"
 	for _, m := range res.serverMsg {
@@ -186,5 +186,9 @@ func flightTerm(res *result, ss tls.ConnectionState) (string, bool) {
 	if sh.sv == tls.VersionTLS13 {
 		eeALPN = ss.NegotiatedProtocol
 	}
-	return fmt.Sprintf("(mkFlight %s %s %s None %s true)", hrrT, helloTerm(sh), vh.Str(eeALPN), skx), true
+	cc := "None"
+	if brotliCert && sh.psk < 0 {
+		cc = "(Some 2)" // the scripted server sent the certificate as CompressedCertificate(brotli)
+	}
+	return fmt.Sprintf("(mkFlight %s %s %s %s %s true)", hrrT, helloTerm(sh), vh.Str(eeALPN), cc, skx), true
 }
